@@ -16,6 +16,13 @@
 (*                       values of the next login follow from the last;    *)
 (*   Correlated       -- one value is computed from another of the same or *)
 (*                       of another login (reuse, truncation, copy).       *)
+(*   FallbackPrng     -- values come from the entropy source while it      *)
+(*                       answers promptly; when it is slow (early boot,    *)
+(*                       starvation) the generator falls back to a         *)
+(*                       clock-seeded one: TimeSeededPrng while degraded;  *)
+(*   FixedKeyStream   -- values come from a deterministic stream whose key *)
+(*                       is the same in every process: the values of the   *)
+(*                       i-th login repeat after every restart.            *)
 (* TLC shows that the invariant Secrecy holds exactly for Csprng.  Each    *)
 (* derivation action has an executable witness that the harness runs       *)
 (* against the real generator and the real handler; a witness that         *)
@@ -30,31 +37,51 @@ Logins == 1..MaxLogins
 Val(kind, i) == <<kind, i>>                      \* the value of a kind issued at login i
 Public(i) == {Val("state", i), Val("nonce", i), Val("challenge", i), Val("time", i)}
 
-VARIABLES issued, known, seedKnown
-vars == <<issued, known, seedKnown>>
+VARIABLES issued, known, seedKnown,
+          slow,       \* logins issued while the entropy source was slow
+          observed    \* the attacker has watched an earlier run of the service (its public and its own sessions' values)
+vars == <<issued, known, seedKnown, slow, observed>>
 
-Init == issued = {} /\ known = {} /\ seedKnown = {}
+Init == issued = {} /\ known = {} /\ seedKnown = {} /\ slow = {} /\ observed = FALSE
 
-Login(i) == i \notin issued /\ (i = 1 \/ (i - 1) \in issued) /\ issued' = issued \cup {i} /\ known' = known \cup Public(i) /\ UNCHANGED seedKnown
+Login(i) == /\ i \notin issued /\ (i = 1 \/ (i - 1) \in issued) /\ issued' = issued \cup {i} /\ known' = known \cup Public(i)
+            /\ \E d \in BOOLEAN : slow' = IF d THEN slow \cup {i} ELSE slow          \* the environment decides whether the source is slow
+            /\ UNCHANGED <<seedKnown, observed>>
+
+\* the attacker runs the service himself (or watched it before a restart) and notes the values of the i-th login of a run
+ObserveEarlierRun == ~observed /\ observed' = TRUE /\ UNCHANGED <<issued, known, seedKnown, slow>>
 
 \* search the seeds in the disclosed time window; a candidate is confirmed by reproducing the disclosed state and nonce
 DeriveFromTimeSeed(i) ==
   /\ GenClass = "TimeSeededPrng" /\ i \in issued
   /\ {Val("time", i), Val("state", i), Val("nonce", i)} \subseteq known
-  /\ seedKnown' = seedKnown \cup {i} /\ known' = known \cup {Val("sid", i)} /\ UNCHANGED issued
+  /\ seedKnown' = seedKnown \cup {i} /\ known' = known \cup {Val("sid", i)} /\ UNCHANGED <<issued, slow, observed>>
+
+\* the same search, possible only for logins issued while the entropy source was slow
+DeriveWhenSourceSlow(i) ==
+  /\ GenClass = "FallbackPrng" /\ i \in issued /\ i \in slow
+  /\ {Val("time", i), Val("state", i), Val("nonce", i)} \subseteq known
+  /\ seedKnown' = seedKnown \cup {i} /\ known' = known \cup {Val("sid", i)} /\ UNCHANGED <<issued, slow, observed>>
+
+\* the i-th login of every run draws the same values
+DeriveFromEarlierRun(i) ==
+  /\ GenClass = "FixedKeyStream" /\ i \in issued /\ observed
+  /\ known' = known \cup {Val("sid", i)} /\ UNCHANGED <<issued, seedKnown, slow, observed>>
 
 \* one deterministic stream: what login i drew determines what login i+1 draws
 DeriveFromSibling(i) ==
   /\ GenClass = "SharedStream" /\ i \in issued /\ (i + 1) \in issued
   /\ Val("state", i) \in known
-  /\ known' = known \cup {Val("sid", i + 1), Val("sid", i)} /\ UNCHANGED <<issued, seedKnown>>
+  /\ known' = known \cup {Val("sid", i + 1), Val("sid", i)} /\ UNCHANGED <<issued, seedKnown, slow, observed>>
 
 \* a secret value that is a function of disclosed values (of this or of an earlier login)
 DeriveFromPublic(i) ==
   /\ GenClass = "Correlated" /\ i \in issued /\ Val("state", i) \in known
-  /\ known' = known \cup {Val("sid", i)} /\ UNCHANGED <<issued, seedKnown>>
+  /\ known' = known \cup {Val("sid", i)} /\ UNCHANGED <<issued, seedKnown, slow, observed>>
 
-Next == \E i \in Logins : Login(i) \/ DeriveFromTimeSeed(i) \/ DeriveFromSibling(i) \/ DeriveFromPublic(i)
+Next == \/ \E i \in Logins : Login(i) \/ DeriveFromTimeSeed(i) \/ DeriveFromSibling(i) \/ DeriveFromPublic(i)
+                             \/ DeriveWhenSourceSlow(i) \/ DeriveFromEarlierRun(i)
+        \/ ObserveEarlierRun
 Spec == Init /\ [][Next]_vars
 
 \* no session id ever enters the attacker's knowledge
